@@ -9,7 +9,7 @@ PID = "C08"
 RULE = ("case = (byte order, width 1..64, position 0..511, set switches (bitNumbering in {None,0,1} x startLittle), "
         "get switches, probe bit k); thorough enumerates byte order x width x position x the 4x4 explicit switch "
         "values completely (1 048 576 set/get pairs) plus the None defaults; quick takes a seeded sample plus all "
-        "widths at byte boundaries. Non-trivial = distinct case in which the position is accepted and the signal "
+        "The signal has a history: it stood at the position whose internal number equals the number set next and was queried there in every notation. widths at byte boundaries. Non-trivial = distinct case in which the position is accepted and the signal "
         "is wider than one bit or a renumbering takes place.")
 EXHAUSTIVE = {"thorough": True, "quick": False}
 PARTIAL = []
@@ -73,12 +73,18 @@ def neighbours(case, rng, shard, nshards):
 def observe(case):
     little, size, start, bns, sls, bng, slg, k = case["c"]
     sig = cm.Signal("s", size=size, is_little_endian=little, is_signed=False)
-    sig.start_bit = 0
+    # the signal has a history: it stood at the position whose internal number equals the number that is set next, and it was
+    # queried there in every notation (what is set and queried afterwards must not remember that)
+    prior = start if k % 2 == 0 else 0
+    sig.start_bit = prior
+    for bn0 in BN:
+        for sl0 in SL:
+            sig.get_startbit(bit_numbering=bn0, start_little=sl0)
     try:
         sig.set_startbit(start, bitNumbering=bns, startLittle=sls)
     except cm.StartbitLowerZero:
         # nothing may have been stored
-        return {"set": None, "get": None, "dec": None, "stored": sig.start_bit}
+        return {"set": None, "get": None, "dec": None, "stored": 0 if sig.start_bit == prior else "changed to %d" % sig.start_bit}
     internal = sig.start_bit
     got = sig.get_startbit(bit_numbering=bng, start_little=slg)
     dec = None
